@@ -2082,7 +2082,7 @@ Proof. intros Hf. induction l as [|a l IH]; intros h HJ; cbn [fold_left]; auto. 
 Lemma Jg_do_api xr xs h g b room q : Jg xr xs h g ->
   Jg xr xs (fst (do_api h b room q)) (gouts g (snd (do_api h b room q))).
 Proof.
-  intros HJ. unfold do_api. cbv zeta. destruct q as [|users rsessions|tag|l|l|ic|tag]; try (pubonly).
+  intros HJ. unfold do_api. cbv zeta. destruct q as [|users rsessions|tag|l|l|ic|tag|ok]; try (pubonly).
   - cbn [fst snd]. rewrite gouts_nil. apply Jg_fold_publish.
     + intros hh rs Hh. destruct (aget (h_rs2 hh) (1000000 + rs)); [|exact Hh]. now apply Jg_publish_neutral.
     + apply Jg_fold_publish; [|exact HJ]. intros hh u Hh. now apply Jg_publish_neutral.
@@ -2091,6 +2091,12 @@ Proof.
     intros hh [[i ic] pm] Hh. destruct i; try exact Hh. destruct pm; [|exact Hh]. now apply Jg_publish_neutral.
   - match goal with |- context [match ?l' with [] => _ | _ => _ end] => destruct l' eqn:El end; [exact HJ|].
     pubonly.
+  - (* dial-out: a message no view reads, then a publication no view reads *)
+    destruct ok; cbn [negb]; [|exact HJ]. destruct (dialout_session h b) as [x|]; [|exact HJ].
+    pose proof (quiet_send_irr h x (SDialout room) eq_refl eq_refl) as Q.
+    destruct (send_session h x (SDialout room)) as [h1 o1]. cbn [fst snd].
+    pose proof (Jg_quiet xr xs h g (h1, o1) Q HJ) as J1. cbn [fst snd] in J1.
+    apply Jg_publish_neutral; [reflexivity|exact I|exact J1].
 Qed.
 
 (* WF and the invariant together, through a function that returns outputs *)
@@ -2937,7 +2943,7 @@ Qed.
 Lemma J_room_request h g k q : WF h -> J h g -> J (fst (room_request h k q)) (gouts g (snd (room_request h k q))).
 Proof.
   unfold WF, J. intros W HJ. unfold room_request. destruct (room_of h k) as [r|] eqn:Hr; [|exact HJ].
-  destruct q as [|users rs|tag|l|l|ic|tag].
+  destruct q as [|users rs|tag|l|l|ic|tag|ok]; [| | | | | | |exact HJ].
   - (* delete *)
     match goal with |- context [fold_sessions h ?int ?f] => set (internals := int); set (fdel := f) end.
     assert (Q0 : quiet h (fold_sessions h internals fdel)) by (apply quiet_fold_sessions; intros hh x; now apply quiet_send_irr).
